@@ -273,8 +273,23 @@ pub fn run_history(out: &mut Out, rng: &mut Rng, h: &History) {
                  else { gen_op(rng, &before) };
         k += 1;
         replay["ops"].as_array_mut().unwrap().push(op.json());
+        // C14: the Simulation query issued in the same state right before the swap
+        let quote = if let Op::Swap { i, j, x, .. } = &op { Some(w.simulate(*i, *j, *x)) } else { None };
         let r = exec(&mut w, &op);
         let after = snap(&w);
+        if let (Some(q), Ok(_), Op::Swap { u, j, .. }) = (&quote, &r, &op) {
+            out.monitor_evals += 1;
+            let got = after.user[*u][*j] - before.user[*u][*j];
+            match q {
+                Ok(sim) => {
+                    if sim.return_amount.u128() != got || sim.protocol_fee_amount.u128() != after.fee[*j] - before.fee[*j] || sim.burn_fee_amount.u128() != after.burn[*j] - before.burn[*j] {
+                        out.monitor_fail("C14", &format!("3pool: simulation (return {}, protocol fee {}, burn fee {}) differs from the executed swap (received {}, ledger +{}, burned +{})",
+                            sim.return_amount, sim.protocol_fee_amount, sim.burn_fee_amount, got, after.fee[*j] - before.fee[*j], after.burn[*j] - before.burn[*j]), replay.clone());
+                    }
+                }
+                Err(_) => out.monitor_fail("C14", "3pool: simulation failed but the swap executed", replay.clone()),
+            }
+        }
         out.count(&format!("pool:{}:{}", op.kind(), match &r { Ok(_) => "ok", Err(e) => if fail_class(e).is_none() { "panic" } else { "rejected" } }));
         let mut cx = Ctx { out: &mut *out, replay: replay.clone(), fees: h.fees };
         monitors(&mut cx, &op, r.is_ok(), &before, &after);
